@@ -48,6 +48,7 @@ var (
 	fVerbose  = flag.Bool("v", false, "replay: print the event log")
 	fGen      = flag.Int64("gen", -1, "print the plan generated for this run index and exit")
 	fNoShrink = flag.Bool("noshrink", false, "do not minimise")
+	fHashes   = flag.Int("hashes", 0, "print 'index loghash schedule-fingerprint' for the first N run indices and exit (determinism self-test)")
 )
 
 func scratchDir() string {
@@ -476,6 +477,18 @@ func main() {
 	if *fProp == "" {
 		fmt.Fprintln(os.Stderr, "simcheck: -prop required")
 		os.Exit(2)
+	}
+	if *fHashes > 0 {
+		for i := int64(0); i < int64(*fHashes); i++ {
+			p := engine.GenPlan(*fProp, mixSeed(*fSeed, i), *fTier, nil)
+			res := execPlan(p)
+			v := ""
+			if res.Violation != nil {
+				v = res.Violation.Signature
+			}
+			fmt.Printf("%d %s %x %s %s\n", i, res.LogHash, res.Stats.SchedFP, res.Infra, v)
+		}
+		return
 	}
 	if *fGen >= 0 {
 		p := engine.GenPlan(*fProp, mixSeed(*fSeed, *fGen), *fTier, nil)
